@@ -64,10 +64,10 @@ def model_registries(rng: random.Random, quick: bool) -> list[list[dict]]:
              "hasalgo": False, "wellformed": True}
             for cc in (X, Y) for code in CODES for bic in BICS for p in (False, True)]
     regs = [[]] + [[e] for e in ents] + [[a, b] for a in ents for b in ents]
-    triples = 2500 if quick else 40000
+    triples = 2500 if quick else 12000
     for _ in range(triples):
         regs.append([rng.choice(ents) for _ in range(3)])
-    for _ in range(300 if quick else 3000):
+    for _ in range(300 if quick else 1500):
         regs.append([rng.choice(ents) for _ in range(rng.choice((4, 5, 6)))])
     return regs
 
@@ -101,7 +101,7 @@ def run(ctx: Ctx) -> dict:
     regs = model_registries(rng, ctx.quick)
     ops = [{"op": "lookup.model", "banks": r, "queries": queries} for r in regs]
     events = calls.execute(ctx, ops, "lkmodel")
-    mism = calls.validate(ctx, "TraceLookup", events, env, "lkmodel", per_shard=700)
+    mism = calls.validate(ctx, "TraceLookup", events, env, "lkmodel", per_shard=700, heap="6g")
     calls.report(ctx, mism, None, keyfn)
     # (C) the real registry
     table = {gen.cc_of(r): r for r in ctx.table(env)}
